@@ -132,6 +132,11 @@ def bar(
     barmode : "overlay" | "group" | "stack"
     """
     get_data_kwargs = pop_many(kwargs, "density", "cumulative", "flatten")
+    layout = go.Layout(barmode=barmode)
+
+    # Consumes the tick arguments, the rest goes to the traces
+    _add_ticks(layout.xaxis, h[0], kwargs)
+
     data = [
         go.Bar(
             x=histogram.bin_centers,
@@ -143,10 +148,6 @@ def bar(
         )
         for histogram in h
     ]
-
-    layout = go.Layout(barmode=barmode)
-
-    _add_ticks(layout.xaxis, h[0], kwargs)
 
     figure = go.Figure(data=data, layout=layout)
     return figure
